@@ -5,6 +5,9 @@ side by side with the real Buffer / packet.py / packet_builder.py / tls.py funct
 small-scope exhaustive sets, grammar-generated values and arbitrary / mutated byte strings; every outcome
 (bytes produced, value decoded, exception class, number of bytes consumed) is compared.
 
+s17: suite `headerat` runs pull_quic_header on Buffers positioned at non-zero offsets of a larger datagram (coalesced
+packets) against model/HeaderAt.v and a strict RFC reader; ack / tparams / tls decoders are re-run behind a prefix.
+
 Implementation oracle (independent of the model): encode-with-impl -> decode-with-impl returns the original;
 the bytes equal those of a Python encoder written here from RFC 9000 sections 16, 17.2, 18, 19.3 / RFC 8446
 section 4; decoding arbitrary bytes gives a value that re-encodes and decodes to the same value, or the
@@ -15,8 +18,8 @@ from unittest import mock
 
 from vlib import core, corr
 
-GENERATORS = ["c17_bits", "c17_blocks"]
-DEPENDS = ["Base", "Tok", "RangeSet", "Codec", "Varint", "AckFrame", "Header", "TParams", "TlsCodec", "C17"]
+GENERATORS = ["c17_bits", "c17_blocks", "c17_header"]
+DEPENDS = ["Base", "Tok", "RangeSet", "Codec", "Varint", "AckFrame", "Header", "HeaderAt", "TParams", "TlsCodec", "C17"]
 TRUSTED_BASE = [
     "extraction (ExtrOcamlBasic only; Z kept as the extracted inductive) + coq/extract/driver.ml for running the models",
     "correspondence harness harness/props/c17.py + harness/vlib/corr.py (decides what 'agree' means)",
@@ -26,6 +29,10 @@ TRUSTED_BASE = [
     "trusted there: the C typing rules the translator implements (integer promotion, usual arithmetic conversions, wrap modulo 2^N on "
     "conversion to uintN_t), LP64, PyArg formats B/H/I/K reducing modulo 2^N",
     "tools/gen/c17_blocks.py: AST template match of tls.pull_block / pull_list / pull_opaque; only the two comparison operators are read",
+    "tools/gen/c17_header.py: symbolic execution of the integer assignments of pull_quic_header (+, -, buf.tell(), buf.capacity); trusted: "
+    "that a buffer method other than tell / eof moves the position, the path classification by the text of the branch tests",
+    "model/HeaderAt.v: a Buffer over the whole datagram is (capacity, remaining suffix), buf.tell() = capacity - |suffix|; tied at non-zero "
+    "offsets by the headerat suite; the walk models only the positions of receive_datagram's loop (pull header, seek to start + packet_length)",
     "Retry integrity tag (AES-128-GCM) and os.urandom are inputs of the model, computed by the harness",
     "ipaddress text conversion of preferred_address and str<->ascii conversion of TLS names are outside the model (compared as bytes)",
 ]
@@ -407,6 +414,41 @@ def vi_gen(rng, n):
     return cases
 
 
+# ------------------------------------------------------------------ decoders on a Buffer that stands mid-buffer (s17)
+def at_offset_oracle(codec, fn, data, prefix):
+    """Every model reads 'the remaining suffix'.  The implementation reads a Buffer with absolute tell() / capacity; a decoder
+    that compares a length with an absolute position is only right at offset 0.  So: the outcome (value, exception class,
+    bytes consumed) of fn on Buffer(prefix + data) standing at len(prefix) must equal the outcome on Buffer(data) at 0."""
+    from aioquic.buffer import Buffer
+
+    def outcome(buf, skip):
+        try:
+            v = fn(buf)
+        except Exception as e:
+            return ("raise", type(e).__name__)
+        return ("ok", v, buf.tell() - skip)
+    b = Buffer(data=prefix + data)
+    b.seek(len(prefix))
+    at, zero = outcome(b, len(prefix)), outcome(Buffer(data=data), 0)
+    if at != zero:
+        return ("%s decoder on a Buffer standing at offset %d behaves differently from the same bytes at offset 0: %s vs %s"
+                % (codec, len(prefix), corr._short(at, 300), corr._short(zero, 300)), {"codec": codec, "rule": "position_dependent"})
+    if at[0] == "ok" and not 0 <= at[2] <= len(data):
+        return ("%s decoder at offset %d consumed %d of %d bytes" % (codec, len(prefix), at[2], len(data)), {"codec": codec, "rule": "bounds"})
+    return None
+
+
+def at_offset_cases(rng, cases, share, suite):
+    """turn a share of the generated 'pull' cases into 'pullat' cases: same bytes behind a prefix of 1..1500 bytes"""
+    out = []
+    for c in cases:
+        op = c["op"]
+        if op[0] == "pull" and rng.random() < share:
+            n = rng.choice([1, 1, 2, 3, 4, 7, 8, 16, 63, 64, 65, 255, 256, rng.randint(1, 1500)])
+            out.append({"s": suite, "op": ["pullat"] + op[1:] + [H(bytes(rng.getrandbits(8) for _ in range(n)))]})
+    return out
+
+
 # ------------------------------------------------------------------ suite: ACK frames
 def ack_encode(case):
     op = case["op"]
@@ -436,12 +478,17 @@ def ack_impl(case):
             packet.push_ack_frame(b, rs, op[2])
             return [0] + lp(b.data)
         data = B(op[1])
+        skip = 0
+        if op[0] == "pullat":       # the frame inside a packet payload: Buffer over prefix + frame, standing at the frame
+            skip = len(B(op[2]))
+            data = B(op[2]) + data
         b = Buffer(data=data)
+        b.seek(skip)
         rs, delay = packet.pull_ack_frame(b)
         out = [0, delay, len(rs)]
         for r in rs:
             out += [r.start, r.stop]
-        return out + [b.tell()]
+        return out + [b.tell() - skip]
     except RuntimeError:
         raise
     except Exception as e:
@@ -482,6 +529,9 @@ def ack_oracle(case):
         if [[x.start, x.stop] for x in rs] != [list(x) for x in ranges] or d != delay or r.tell() != len(ref):
             return ("pull_ack_frame(push_ack_frame(rs)) != rs", {"codec": "ack", "rule": "roundtrip"})
         return None
+    if op[0] == "pullat":
+        return at_offset_oracle("ack", lambda b: packet.pull_ack_frame(b), B(op[1]), B(op[2])) or \
+            ack_oracle({"s": "ack", "op": ["pull", op[1]]})
     data = B(op[1])
     b = Buffer(data=data)
     ref = rfc_ack_decode(data)
@@ -884,6 +934,376 @@ def hd_gen(rng, n, thorough):
 
 
 
+# ------------------------------------------------------------------ suite: packet headers at a buffer offset (s17)
+# pull_quic_header is handed a Buffer over the WHOLE datagram standing at the packet start (second and later
+# coalesced packets: receive_datagram's loop); model/HeaderAt.v keeps buf.tell() / buf.capacity absolute.
+E_SEEK = 110
+
+
+def rfc_varint_w(v, width):
+    """varint of a chosen width (1, 2, 4, 8) -- RFC 9000 16 allows non-minimal encodings"""
+    return (v | ({1: 0, 2: 1, 4: 2, 8: 3}[width] << (8 * width - 2))).to_bytes(width, "big")
+
+
+def rfc_long_prefix(version, ptype, dcid, scid, token, length, width=2, low_bits=1):
+    """long header up to and including the Length field (RFC 9000 17.2, RFC 9369 3.2); Length of any varint width"""
+    bits = LONG_TYPE_BITS[2 if version == V2 else 1][ptype]
+    out = bytes([0xC0 | (bits << 4) | low_bits]) + version.to_bytes(4, "big")
+    out += bytes([len(dcid)]) + dcid + bytes([len(scid)]) + scid
+    if ptype == 0:
+        out += rfc_varint(len(token)) + token
+    return out + rfc_varint_w(length, width)
+
+
+def rfc_header_strict(data, start, hcl):
+    """RFC 9000 17.2 / 17.3, RFC 9369 3.2 walked strictly from offset `start` of the datagram `data`, written
+    without reference to packet.py.  None = not a well-formed header whose packet lies inside the datagram
+    (truncated field, CID > 20, fixed bit clear, DECLARED PACKET END > DATAGRAM END).  Otherwise the fields,
+    the offset where the header ends and the offset where the packet ends."""
+    n = len(data)
+    p = start
+    if not 0 <= p < n:
+        return None
+    first = data[p]
+    p += 1
+    if not first & 0x80:
+        if not first & 0x40 or hcl < 0 or p + hcl > n:
+            return None
+        return {"version": None, "ptype": 5, "dcid": data[p:p + hcl], "scid": b"", "token": b"", "tag": b"", "versions": [],
+                "hdr_end": p + hcl, "pkt_end": n}
+    if p + 4 > n:
+        return None
+    version = int.from_bytes(data[p:p + 4], "big")
+    p += 4
+    cids = []
+    for _ in range(2):
+        if p >= n:
+            return None
+        ln = data[p]
+        p += 1
+        if ln > 20 or p + ln > n:
+            return None
+        cids.append(data[p:p + ln])
+        p += ln
+    out = {"version": version, "dcid": cids[0], "scid": cids[1], "token": b"", "tag": b"", "versions": []}
+    if version == 0:
+        if (n - p) % 4:
+            return None
+        out.update(ptype=4, versions=[int.from_bytes(data[i:i + 4], "big") for i in range(p, n, 4)], hdr_end=n, pkt_end=n)
+        return out
+    if not first & 0x40:
+        return None
+    bits = (first >> 4) & 3
+    ptype = {v: k for k, v in LONG_TYPE_BITS[2 if version == V2 else 1].items()}[bits]
+    if ptype == 3:
+        if n - p < 16:
+            return None
+        out.update(ptype=3, token=data[p:n - 16], tag=data[n - 16:], hdr_end=n, pkt_end=n)
+        return out
+    if ptype == 0:
+        r = rfc_varint_decode(data, p)
+        if r is None or r[1] + r[0] > n:
+            return None
+        out["token"] = data[r[1]:r[1] + r[0]]
+        p = r[1] + r[0]
+    r = rfc_varint_decode(data, p)
+    if r is None:
+        return None
+    length, p = r
+    if p + length > n:          # the Length field must not claim more than what is left of the datagram
+        return None
+    out.update(ptype=ptype, hdr_end=p, pkt_end=p + length)
+    return out
+
+
+def _real_walk(data, hcl):
+    """the packet boundaries as receive_datagram derives them, with the real pull_quic_header / Buffer.seek"""
+    from aioquic.buffer import Buffer, BufferReadError
+    from aioquic.quic import packet
+    buf = Buffer(data=data)
+    bounds, status = [], 0
+    while not buf.eof():
+        start = buf.tell()
+        try:
+            h = packet.pull_quic_header(buf, host_cid_length=hcl)
+        except ValueError as e:
+            status = errk(e)
+            break
+        end = start + h.packet_length
+        bounds.append((start, end))
+        if end <= start:
+            status = 111            # no progress: the real loop would not terminate
+            break
+        try:
+            buf.seek(end)
+        except BufferReadError:
+            status = E_SEEK
+            break
+    return bounds, status
+
+
+def _rfc_walk(data, hcl):
+    """the same walk with the strict RFC reader only"""
+    pos, bounds = 0, []
+    while pos < len(data):
+        r = rfc_header_strict(data, pos, hcl)
+        if r is None:
+            return bounds, "drop"
+        bounds.append((pos, r["pkt_end"]))
+        pos = r["pkt_end"]
+    return bounds, "eof"
+
+
+def build_coalesced(version, pkts, pcid, hcid, token, is_client):
+    """drive the real QuicPacketBuilder: several packets into ONE datagram; returns (datagram, [sent_bytes])"""
+    from aioquic.quic.packet import QuicFrameType, QuicPacketType
+    from aioquic.quic.packet_builder import QuicPacketBuilder
+    b = QuicPacketBuilder(host_cid=hcid, peer_cid=pcid, version=version, is_client=is_client, max_datagram_size=1280,
+                          packet_number=7, peer_token=token)
+    for ptype, payload_len in pkts:
+        b.start_packet(QuicPacketType(ptype), StubCrypto(0))
+        buf = b.start_frame(QuicFrameType.PING)
+        buf.push_bytes(bytes([0x5A]) * payload_len)
+    datagrams, packets = b.flush()
+    if len(datagrams) != 1:
+        raise RuntimeError("generator: packets did not fit one datagram")
+    return datagrams[0], [p.sent_bytes for p in packets]
+
+
+def _coalesced_of(op):
+    _, version, pkts, pcid, hcid, token, is_client = op
+    return build_coalesced(version, [tuple(x) for x in pkts], B(pcid), B(hcid), B(token), bool(is_client))
+
+
+def hat_encode(case):
+    op = case["op"]
+    if op[0] == "pullat":
+        return [0, op[1], op[2]] + lp(B(op[3]))
+    if op[0] == "walk":
+        return [1, op[1]] + lp(B(op[2]))
+    if op[0] == "coalesce":
+        dg, _ = _coalesced_of(op)
+        return [1, len(B(op[3]))] + lp(dg)
+    raise ValueError(op[0])
+
+
+def _walk_tokens(bounds, status):
+    out = [0, len(bounds)]
+    for s, e in bounds:
+        out += [s, e]
+    return out + [status]
+
+
+def hat_impl(case):
+    from aioquic.buffer import Buffer, BufferReadError
+    from aioquic.quic import packet
+    op = case["op"]
+    if op[0] == "pullat":
+        b = Buffer(data=B(op[3]))
+        try:
+            b.seek(op[2])
+        except BufferReadError:
+            return [E_SEEK]
+        try:
+            h = packet.pull_quic_header(b, host_cid_length=op[1])
+            return [0] + _hdr_tokens(h, b.tell())
+        except Exception as e:
+            return [errk(e)]
+    if op[0] == "walk":
+        return _walk_tokens(*_real_walk(B(op[2]), op[1]))
+    if op[0] == "coalesce":
+        dg, _ = _coalesced_of(op)
+        return _walk_tokens(*_real_walk(dg, len(B(op[3]))))
+    raise ValueError(op[0])
+
+
+def hat_oracle(case):
+    from aioquic.buffer import Buffer, BufferReadError
+    from aioquic.quic import packet
+    op = case["op"]
+    if op[0] == "pullat":
+        hcl, start, data = op[1], op[2], B(op[3])
+        b = Buffer(data=data)
+        try:
+            b.seek(start)
+        except BufferReadError:
+            return None if not 0 <= start <= len(data) else ("Buffer.seek refused an offset inside the buffer", {"codec": "buffer", "rule": "seek"})
+        if not 0 <= start <= len(data):
+            return ("Buffer.seek accepted an offset outside the buffer", {"codec": "buffer", "rule": "seek"})
+        ref = rfc_header_strict(data, start, hcl)
+        try:
+            h = packet.pull_quic_header(b, host_cid_length=hcl)
+        except ValueError:
+            if ref is not None:
+                return ("pull_quic_header at offset %d rejects a well-formed packet that lies inside the datagram" % start,
+                        {"codec": "header", "rule": "spurious_error_at_offset"})
+            return None
+        except Exception as e:
+            return ("pull_quic_header raised %s" % type(e).__name__, {"codec": "header", "rule": "exception", "exception": type(e).__name__})
+        end = start + h.packet_length
+        if end > len(data) or b.tell() > end or b.tell() <= start:
+            return ("packet at offset %d: pull_quic_header returned packet_length=%d, i.e. a packet end %d beyond the datagram end %d "
+                    "(tell=%d) instead of raising 'Packet payload is truncated'" % (start, h.packet_length, end, len(data), b.tell())
+                    if end > len(data) else
+                    "packet at offset %d: header end %d not inside the packet [%d, %d)" % (start, b.tell(), start, end),
+                    {"codec": "header", "rule": "nesting_at_offset"})
+        if ref is None:
+            return ("pull_quic_header at offset %d accepted a header that the strict RFC 9000 17.2 reader refuses" % start,
+                    {"codec": "header", "rule": "accepts_malformed_at_offset"})
+        got = (h.version, h.packet_type.value, h.destination_cid, h.source_cid, h.token, h.integrity_tag, list(h.supported_versions),
+               b.tell(), end)
+        want = (ref["version"], ref["ptype"], ref["dcid"], ref["scid"], ref["token"], ref["tag"], ref["versions"], ref["hdr_end"], ref["pkt_end"])
+        if got != want:
+            return ("pull_quic_header at offset %d differs from the strict RFC reader (fields, header end or packet end)" % start,
+                    {"codec": "header", "rule": "decode_at_offset"})
+        # the function must not depend on what precedes the packet
+        b0 = Buffer(data=data[start:])
+        h0 = packet.pull_quic_header(b0, host_cid_length=hcl)
+        if (h0, b0.tell()) != (h, b.tell() - start):
+            return ("pull_quic_header at offset %d differs from the same packet at offset 0" % start,
+                    {"codec": "header", "rule": "position_dependent"})
+        return None
+    if op[0] in ("walk", "coalesce"):
+        if op[0] == "walk":
+            hcl, data, sent = op[1], B(op[2]), None
+        else:
+            data, sent = _coalesced_of(op)
+            hcl = len(B(op[3]))
+        try:
+            bounds, status = _real_walk(data, hcl)
+        except Exception as e:
+            return ("walk over the coalesced packets raised %s" % type(e).__name__, {"codec": "header", "rule": "walk_exception", "exception": type(e).__name__})
+        if status == E_SEEK:
+            s, e = bounds[-1]
+            return ("receive walk: packet at offset %d has packet_length=%d, buf.seek(%d) is out of bounds of the %d-byte datagram "
+                    "(BufferReadError 'Seek out of bounds' instead of 'Packet payload is truncated')" % (s, e - s, e, len(data)),
+                    {"codec": "header", "rule": "walk_seek_out_of_bounds"})
+        if status not in (0, E_READ, E_VALUE):
+            return ("receive walk ended with status %d" % status, {"codec": "header", "rule": "walk_status"})
+        pos = 0
+        for s, e in bounds:
+            if s != pos or not s < e <= len(data):
+                return ("receive walk: boundaries not consecutive / not inside the datagram: %r" % (bounds,), {"codec": "header", "rule": "walk_chain"})
+            pos = e
+        rb, rs = _rfc_walk(data, hcl)
+        if (bounds, status == 0) != (rb, rs == "eof"):
+            return ("receive walk differs from the strict RFC walk: %r %r vs %r %r" % (bounds, status, rb, rs), {"codec": "header", "rule": "walk_rfc"})
+        if sent is not None:
+            want, pos = [], 0
+            for n in sent:
+                want.append((pos, pos + n))
+                pos += n
+            tail = data[pos:]
+            # bytes after the last packet: the builder's datagram padding (zero bytes tacked on after an Initial, RFC 9000 14.1)
+            if bounds != want or any(tail) or (status == 0) != (not tail):
+                return ("walk over a datagram of %d coalesced packets written by QuicPacketBuilder does not recover the builder's "
+                        "packet boundaries: %r, status %d, builder %r + %d padding bytes" % (len(sent), bounds, status, want, len(tail)),
+                        {"codec": "header", "rule": "coalesced_roundtrip"})
+        return None
+    return None
+
+
+def hat_second_packets(rng, version, ptype, start, k_values):
+    """long-header packets whose Length field is remaining + k, to be placed at offset `start`"""
+    out = []
+    dcid, scid = rbytes(rng, rng.choice([0, 8, 20])), rbytes(rng, rng.choice([0, 4, 20]))
+    token = rbytes(rng, rng.choice([0, 7, 64])) if ptype == 0 else b""
+    payload = rng.choice([0, 1, 2, 24, 70, 300])
+    for k in k_values:
+        length = payload + k
+        if length < 0:
+            continue
+        width = rng.choice([w for w in (1, 2, 4, 8) if length < 1 << (8 * w - 2)])
+        out.append(rfc_long_prefix(version, ptype, dcid, scid, token, length, width, rng.getrandbits(4)) + rbytes(rng, payload))
+    return out
+
+
+def hat_gen(rng, n, thorough):
+    cases = []
+
+    def add(*op):
+        cases.append({"s": "headerat", "op": list(op)})
+
+    def first_packet():
+        r = rng.random()
+        if r < 0.4:      # a real first packet (independent encoder), honest Length
+            pl = rng.choice([2, 20, 60, 300, 1100])
+            return rfc_long_header(rng.choice([V1, V2]), rng.choice([0, 2]), rbytes(rng, 8), rbytes(rng, rng.choice([0, 4, 8])), b"", pl, 1) + rbytes(rng, pl - 2)
+        if r < 0.5:      # a real first packet through the real builder
+            return build_packet(rng.choice([V1, V2]), rng.choice([0, 1, 2]), 3, rng.choice([1, 40, 200]), rbytes(rng, 8), rbytes(rng, 8), b"")[0]
+        return rbytes(rng, rng.choice([1, 2, 3, 7, 16, 41, 63, 64, 65, 100, 255, 256, 1199, 1200, 1500, rng.randint(1, 1500)]))
+
+    # 1. small scope, exhaustive: every start offset 1..S, every overstatement k = -2 .. start+2, all long types, both versions
+    S = 48 if thorough else 24
+    for version in (V1, V2):
+        for ptype in (0, 1, 2):
+            for start in range(1, S + 1):
+                prefix = rbytes(rng, start)
+                for pkt in hat_second_packets(rng, version, ptype, start, list(range(-2, start + 3))):
+                    add("pullat", 8, start, H(prefix + pkt))
+    # 2. prefixes of 1..1500 arbitrary bytes or a real first packet; Length = remaining + k around 0 and around start
+    for _ in range(n // 12):
+        prefix = first_packet()
+        start = len(prefix)
+        version, ptype = rng.choice([V1, V2]), rng.choice([0, 1, 2])
+        ks = [-2, -1, 0, 1, 2, start - 2, start - 1, start, start + 1, start + 2, rng.randint(1, start), 5000, (1 << 30) - 1]
+        for pkt in hat_second_packets(rng, version, ptype, start, ks):
+            add("pullat", rng.choice([0, 8, 20]), start, H(prefix + pkt))
+            if rng.random() < 0.15:
+                add("walk", 8, H(prefix + pkt))
+    # 3. every kind of packet the decoder knows (valid, mutated, truncated, random) behind a prefix; start offsets at / beyond the end
+    for _ in range(n // 3):
+        hcl = rng.choice([0, 8, 8, 20, rng.randint(0, 25), -1])
+        data = hd_valid_packet(rng)
+        r = rng.random()
+        if r < 0.5:
+            for _ in range(rng.randint(1, 3)):
+                data = mutate(rng, data)
+        elif r < 0.6:
+            data = data[:rng.randint(0, len(data))]
+        prefix = first_packet() if rng.random() < 0.3 else rbytes(rng, rng.randint(0, 40))
+        start = len(prefix)
+        if rng.random() < 0.05:
+            start = rng.choice([len(prefix) + len(data), len(prefix) + len(data) + 1, -1, len(prefix) + len(data) - 1])
+        add("pullat", hcl, start, H(prefix + data))
+    # 4. walks: 1..4 well-formed packets back to back, then possibly one lying / mutated / short packet
+    for _ in range(n // 4):
+        hcl = 8
+        parts = []
+        for _ in range(rng.randint(1, 4)):
+            pl = rng.choice([2, 3, 20, 100, 400])
+            parts.append(rfc_long_header(rng.choice([V1, V2]), rng.choice([0, 1, 2]), rbytes(rng, 8), rbytes(rng, rng.choice([0, 8])),
+                                         b"", pl, rng.getrandbits(16)) + rbytes(rng, pl - 2))
+        data = b"".join(parts)
+        r = rng.random()
+        if r < 0.3:
+            start = len(data)
+            k = rng.choice([1, 2, start - 1, start, start + 1, rng.randint(1, start)])
+            data += hat_second_packets(rng, rng.choice([V1, V2]), rng.choice([0, 1, 2]), start, [k])[0]
+        elif r < 0.5:
+            data += bytes([0x40 | rng.getrandbits(6)]) + rbytes(rng, rng.randint(0, 30))
+        elif r < 0.6:
+            data += bytes(rng.randint(1, 30))
+        elif r < 0.8:
+            data = mutate(rng, data)
+        add("walk", hcl, H(data))
+    # 5. the real builder writes 2..4 packets into one datagram; the receive walk recovers them
+    cid = lambda k: H(bytes((i * 13 + k) & 0xFF for i in range(k)))
+    for version in (V1, V2):
+        for is_client in (0, 1):
+            for L in (0, 1, 8, 20):
+                for pkts in ([[0, 10], [2, 20]], [[0, 5], [2, 7], [5, 30]], [[0, 1], [1, 40], [2, 3], [5, 9]], [[2, 100], [5, 0]],
+                             [[1, 30], [5, 60]], [[2, 12], [2, 200]], [[0, 300], [1, 300], [2, 300]]):
+                    add("coalesce", version, pkts, cid(L), cid((L * 3) % 21), H(bytes(range(L % 6))), is_client)
+    for _ in range(n // 40):
+        k = rng.randint(2, 4)
+        pkts = [[rng.choice([0, 1, 2]), rng.choice([0, 1, 2, 30, 150, 250])] for _ in range(k - 1)]
+        pkts.append([rng.choice([0, 1, 2, 5, 5]), rng.choice([0, 1, 30, 150])])
+        add("coalesce", rng.choice([V1, V2]), pkts, H(rbytes(rng, rng.randint(0, 20))), H(rbytes(rng, rng.randint(0, 20))),
+            H(rbytes(rng, rng.choice([0, 0, 16, 70]))), rng.getrandbits(1))
+    return cases
+
+
 # ------------------------------------------------------------------ suite: transport parameters (stretch)
 KIND = {"int": 0, "bytes": 1, "bool": 2, "QuicPreferredAddress": 3, "QuicVersionInformation": 4}
 
@@ -964,7 +1384,7 @@ def _rec_tokens(params):
 
 def tp_encode(case):
     op = case["op"]
-    if op[0] == "pull":
+    if op[0] in ("pull", "pullat"):
         return [0] + lp(B(op[1]))
     if op[0] == "pullrec":
         return [2] + lp(B(op[1]))
@@ -989,6 +1409,10 @@ def tp_impl(case):
     try:
         if op[0] == "pull":
             b = Buffer(data=B(op[1]))
+            return [0] + _params_dump(packet.pull_quic_transport_parameters(b))
+        if op[0] == "pullat":       # the parameters at the end of a larger buffer (the function reads until buf.eof())
+            b = Buffer(data=B(op[2]) + B(op[1]))
+            b.seek(len(B(op[2])))
             return [0] + _params_dump(packet.pull_quic_transport_parameters(b))
         if op[0] == "pullrec":
             b = Buffer(data=B(op[1]))
@@ -1121,6 +1545,9 @@ def tp_oracle(case):
         if packet.pull_quic_transport_parameters(r) != params or not r.eof():
             return ("pull(push(params)) != params", {"codec": "tparams", "rule": "roundtrip"})
         return None
+    if op[0] == "pullat":
+        return at_offset_oracle("tparams", packet.pull_quic_transport_parameters, B(op[1]), B(op[2])) or \
+            tp_oracle({"s": "tparams", "op": ["pull", op[1]]})
     data = B(op[1])
     b = Buffer(data=data)
     strict = rfc_tparams_strict(data)
@@ -1530,7 +1957,7 @@ def rand_msg(rng, kind):
 
 def tls_encode(case):
     op = case["op"]
-    if op[0] == "pull":
+    if op[0] in ("pull", "pullat"):
         return [0, op[1]] + lp(B(op[2]))
     if op[0] == "pushrec":
         return [2, op[1]] + list(op[2])
@@ -1545,6 +1972,12 @@ def tls_impl(case):
             b = Buffer(data=B(op[2]))
             m = _tls_funcs()[op[1]][0](b)
             return [0] + tls_dump(op[1], m) + [b.tell()]
+        if op[0] == "pullat":       # the message inside a larger buffer: every nested pull_block then sits at a shifted position
+            skip = len(B(op[3]))
+            b = Buffer(data=B(op[3]) + B(op[2]))
+            b.seek(skip)
+            m = _tls_funcs()[op[1]][0](b)
+            return [0] + tls_dump(op[1], m) + [b.tell() - skip]
         if op[0] == "pushrec":
             # op = ["pushrec", kind, dump]: rebuild the dataclass, run the real push_<message>, dump it again
             m = tls_undump(op[1], op[2])
@@ -1621,6 +2054,8 @@ def tls_oracle(case):
     op = case["op"]
     if op[0] == "pushrec":
         return tls_pushrec_oracle(op[1], op[2])
+    if op[0] == "pullat":
+        return at_offset_oracle("tls", _tls_funcs()[op[1]][0], B(op[2]), B(op[3])) or tls_oracle({"s": "tls", "op": ["pull", op[1], op[2]]})
     if op[0] != "pull":
         return None
     kind, data = op[1], B(op[2])
@@ -1789,11 +2224,13 @@ def _simplify(op):
     """smaller variants of one op: shorter byte strings, smaller numbers"""
     if op[0] == "pushrec" and isinstance(op[2], list):
         return []      # a TLS message given as its token dump: cutting the dump gives garbage counts, not a smaller message
+    if op[0] == "coalesce":
+        return [op[:2] + [op[2][:j] + op[2][j + 1:]] + op[3:] for j in range(len(op[2])) if len(op[2]) > 1]
     out = []
     for i, x in enumerate(op):
         if i == 0:
             continue
-        if i == 1 and op[0] == "pull" and len(op) == 3 and x in (1, 2, 4, 8, 11, 13, 15, 20):
+        if i == 1 and (op[0] == "pull" and len(op) == 3 or op[0] == "pullat" and len(op) == 4) and x in (1, 2, 4, 8, 11, 13, 15, 20):
             continue   # a TLS handshake type (or a host_cid_length with such a value): halving it changes which decoder runs
         if isinstance(x, str) and x:
             for y in (x[:-2], x[2:], "00" * (len(x) // 2)):
@@ -1824,6 +2261,7 @@ def make_suites(ctx):
         "ints": mk("ints", "exec_varint", vi_encode, vi_impl, vi_oracle),
         "ack": mk("ack", "exec_ack", ack_encode, ack_impl, ack_oracle),
         "header": mk("header", "exec_quic_header", hd_encode, hd_impl, hd_oracle),
+        "headerat": mk("headerat", "exec_quic_header_at", hat_encode, hat_impl, hat_oracle),
     }
     suites["tparams"] = mk("tparams", "exec_tparams", tp_encode, tp_impl, tp_oracle)
     suites["tls"] = mk("tls", "exec_tls", tls_encode, tls_impl, tls_oracle)
@@ -1836,12 +2274,23 @@ def run(ctx):
         s.run(corr.load_corpus("C17", s.name), "corpus")
     rng = ctx.rng
     suites["ints"].run(vi_gen(rng, ctx.n(180000, 2000000)))
-    suites["ack"].run(ack_gen(rng, ctx.n(30000, 300000), ctx.thorough))
+    ack_cases = ack_gen(rng, ctx.n(30000, 300000), ctx.thorough)
+    suites["ack"].run(ack_cases)
     suites["header"].run(hd_gen(rng, ctx.n(30000, 300000), ctx.thorough))
     extra = {}
-    suites["tparams"].run(tp_gen(rng, ctx.n(15000, 150000), ctx.thorough))
+    tp_cases = tp_gen(rng, ctx.n(15000, 150000), ctx.thorough)
+    suites["tparams"].run(tp_cases)
     tls_cases, tls_bads = tls_gen(ctx, rng, ctx.n(12000, 120000))
     suites["tls"].run(tls_cases)
+    # s17: decoders on a Buffer that stands at a non-zero position of a larger buffer (drawn after everything else, so the
+    # cases above are the same as before for a given seed)
+    suites["headerat"].run(hat_gen(rng, ctx.n(12000, 120000), ctx.thorough))
+    at = {"ack": at_offset_cases(rng, ack_cases, 0.12, "ack"), "tparams": at_offset_cases(rng, tp_cases, 0.25, "tparams"),
+          "tls": at_offset_cases(rng, tls_cases, 0.4, "tls")}
+    for k, v in at.items():
+        suites[k].run(v)
+    extra["decoders_at_nonzero_buffer_offset"] = dict({k: len(v) for k, v in at.items()},
+                                                      headerat=dict(suites["headerat"].stats["outcome_histogram"]))
     for c, bad in tls_bads[:3]:
         ctx.violation("impl-violation", "tls: " + bad[0], corr._short(c, 4000), signature=bad[1])
     extra["tls_push_roundtrips_checked"] = len(tls_cases)
